@@ -83,6 +83,17 @@ let () =
           (match subtract_lines key_of (lines_of (zlist_of_hex (undash hs))) (lines_of (zlist_of_hex (undash h))) with
            | Ok out -> print_endline ("OK " ^ hx (bytes_of out))
            | e -> print_endline (err_name e))
+        | ["SR"; hs; h] ->
+          (* complete model: keys from the MurmurHash64A model (C14), nothing from the implementation *)
+          let k l = Z.to_N (subtract_insert_key l) in
+          (match subtract_lines k (lines_of (zlist_of_hex (undash hs))) (lines_of (zlist_of_hex (undash h))) with
+           | Ok out -> print_endline ("OK " ^ hx (bytes_of out))
+           | e -> print_endline (err_name e))
+        | ["CR"; hr; h] ->
+          let k l = Z.to_N (commoncrawl_dedupe_key l) in
+          (match commoncrawl_dedupe k (lines_of (zlist_of_hex (undash hr))) (lines_of (zlist_of_hex (undash h))) with
+           | Ok out -> print_endline ("OK " ^ hx (bytes_of out))
+           | e -> print_endline (err_name e))
         | ["C"; hr; h] ->
           (match commoncrawl_dedupe key_of (lines_of (zlist_of_hex (undash hr))) (lines_of (zlist_of_hex (undash h))) with
            | Ok out -> print_endline ("OK " ^ hx (bytes_of out))
